@@ -20,6 +20,7 @@ func init() {
 			{"MARKER-ORDER", ruleMarkerOrder},
 			{"DIRECTION-DISPATCH", ruleDirectionDispatch},
 			{"DIRECTION-CONSISTENT", ruleDirectionConsistent},
+			{"PREFIX-END-SHAPE", rulePrefixEndShape},
 			{"KEY-LAYOUT", ruleKeyLayout},
 		},
 		Meta: eng.PropMeta{
